@@ -808,12 +808,14 @@ func codecMethod(name string) value {
 			return Str{s: kind}
 		case "Marshal":
 			if kind != "proto" {
-				p.end(stCut, "JSON codec is not modelled (only its selection is checked)")
+				p.note("JSON codec is not modelled (only its selection is checked): Marshal reports an error")
+				return tuple{[]value(nil), p.errValue("json codec not modelled")}
 			}
 			return p.protoMarshal(fr, a[1])
 		case "Unmarshal":
 			if kind != "proto" {
-				p.end(stCut, "JSON codec is not modelled (only its selection is checked)")
+				p.note("JSON codec is not modelled (only its selection is checked): Unmarshal reports an error")
+				return p.errValue("json codec not modelled")
 			}
 			return p.protoUnmarshal(fr, a[1], a[2], true)
 		}
